@@ -17,7 +17,7 @@ _cache = {}
 
 
 def gen_case_matrix(rng, fmt, rich):
-    opts = {"floats": True, "limits": False, "cycle": False, "maxframes": 3, "comments": False, "unique_signal_names": fmt == "arxml", "lone_mux": True,
+    opts = {"floats": True, "limits": False, "cycle": False, "maxframes": 3, "comments": False, "unique_signal_names": fmt == "arxml", "lone_mux": True, "twin_ids": fmt != "xls",
             "mux": fmt != "arxml", "lengths": [1, 2, 3, 4, 8, 8, 8, 12, 16, 64] if fmt in ("dbc", "json", "arxml", "sym", "kcd", "dbf", "xls") else [1, 2, 4, 8, 8, 8]}
     if rich:
         def rand_dec(nonzero):
@@ -59,51 +59,60 @@ def gen_case_matrix(rng, fmt, rich):
 
 
 def extract_positions(fmt, data):
-    """{(frame id or name, signal name): stored position} where the format makes that easy; else {}"""
+    """{(frame id, extended, signal name): stored position} where the format makes that easy; else {}"""
     out = {}
     if fmt == "dbc":
         cur = None
         for line in data.decode("iso-8859-1").split("\n"):
             m = re.match(r"^BO_ (\d+) (\w+)", line)
             if m:
-                cur = int(m.group(1)) & 0x1FFFFFFF
+                cur = (int(m.group(1)) & 0x1FFFFFFF, bool(int(m.group(1)) & 0x80000000))
             m = re.match(r"^ SG_ (\w+) ?(\w*) ?: (\d+)\|(\d+)@(\d)([+-])", line)
             if m and cur is not None:
-                out[(cur, m.group(1))] = int(m.group(3))
+                out[cur + (m.group(1),)] = int(m.group(3))
     elif fmt == "dbf":
         cur = None
         for line in data.decode("iso-8859-1").split("\n"):
             if line.startswith("[START_MSG]"):
-                cur = int(line[11:].strip().split(",")[1])
+                a = line[11:].strip().split(",")
+                cur = (int(a[1]), a[5].strip() == "X")
             if line.startswith("[START_SIGNALS]"):
                 a = line[15:].strip().split(",")
-                out[(cur, a[0])] = (int(a[2]) - 1) * 8 + int(a[3])
+                out[cur + (a[0],)] = (int(a[2]) - 1) * 8 + int(a[3])
     elif fmt == "sym":
         cur = None
-        for line in data.decode("iso-8859-1").split("\n"):
+        pending = []
+        for line in data.decode("iso-8859-1").split("\n") + ["["]:
+            if line.startswith("["):
+                # a block ends: the Type= line (after ID=) said whether the identifier is extended
+                for key, val in pending:
+                    out.setdefault(cur + (key,), val)
+                pending = []
             m = re.match(r"^ID=([0-9A-Fa-f]+)h", line)
             if m:
-                cur = int(m.group(1), 16)
+                cur = (int(m.group(1), 16), False)
+            if line.startswith("Type=") and cur is not None:
+                cur = (cur[0], "Extended" in line)
             m = re.match(r"^Var=(\w+) \w+ (\d+),(\d+)", line)
             if m and cur is not None:
-                out.setdefault((cur, m.group(1)), int(m.group(2)))
+                pending.append((m.group(1), int(m.group(2))))
             m = re.match(r"^Mux=(\w+) (\d+),(\d+)", line)
             if m and cur is not None:
-                out.setdefault((cur, "<mux>"), int(m.group(2)))
+                pending.append(("<mux>", int(m.group(2))))
     elif fmt == "kcd":
         root = lxml.etree.fromstring(data)
         ns = "{http://kayak.2codeornot2code.org/1.0}"
         for msg in root.iter(ns + "Message"):
-            cur = int(msg.get("id"), 16)
+            cur = (int(msg.get("id"), 16), msg.get("format") == "extended")
             for el in msg.iter(ns + "Signal"):
-                out[(cur, el.get("name"))] = int(el.get("offset"))
+                out[cur + (el.get("name"),)] = int(el.get("offset"))
             for el in msg.iter(ns + "Multiplex"):
-                out[(cur, el.get("name"))] = int(el.get("offset"))
+                out[cur + (el.get("name"),)] = int(el.get("offset"))
     elif fmt == "json":
         js = json.loads(data.decode())
         for msg in js["messages"]:
             for s in msg["signals"]:
-                out[(int(msg["id"]), s["name"])] = int(s["start_bit"])
+                out[(int(msg["id"]), bool(msg.get("is_extended_frame")), s["name"])] = int(s["start_bit"])
     return out
 
 
